@@ -3978,6 +3978,24 @@ def _mk_c09(name, ops, n2, tier, cwds=("/", "/a"), tree=None):
     return f
 
 
+def _mk_hist(name, pre, ops, tier):
+    @job(name, ["C01", "C03", "C12"], tier, functions=[MEM_FUNCS[0] % ",".join(sorted(set(pre + ops)))],
+         bounds="two-call histories from the tree {/, /a, /a/b, /b} with cwd '/': first one of %s, then one of %s, every path text of 1..=2 chars over {'/','a','b','.'} for each "
+                "argument of both calls (data one ASCII char); the obligations (outcome and complete store vs the reference filesystem applied to the state the first call left, "
+                "failure atomicity, tree invariants) are those of the second call" % (pre, ops))
+    def f(ctx, prop):
+        return run_memfs_single(ctx, prop, ops, 2, 2, cwds=("/",), tag=name, pre=pre, npre=2)
+    return f
+
+
+HIST_OPS = ["mkfile", "mkdir_p", "write_all", "append_all", "remove", "remove_all", "symlink", "set_cwd", "move_p", "copy"]
+for _pre, _op in (("mkdir_p", "move_p"), ("mkdir_p", "remove"), ("mkdir_p", "copy"), ("remove", "mkdir_p"), ("write_all", "move_p")):
+    _mk_hist("c01_hist_%s_%s" % (_pre, _op), [_pre], [_op], "quick")
+for _pre in ("mkdir_p", "mkfile", "symlink", "remove", "move_p", "set_cwd", "remove_all", "write_all", "copy"):
+    _mk_hist("c01_hist2_%s_a" % _pre, [_pre], HIST_OPS[:5], "thorough")
+    _mk_hist("c01_hist2_%s_b" % _pre, [_pre], HIST_OPS[5:], "thorough")
+
+
 def _mk_c11t(name, ops, n, tier, cwds=("/", "/a")):
     @job(name, ["C11", "C12"], tier, functions=["Memfs::{chmod_b,chown_b,_chmod,_chown}, Chmod::{all,dirs,files,readonly,secure,no_recurse,follow,exec}, Chown::{owner,uid,gid,recurse,follow,exec}, "
                                                 "sys::mode, revoking_mode, MemfsEntry::{set_mode,set_owner} and the Entries traversal (contents_first, dirs_first, pre_op closure) they drive (real MIR)"],
@@ -4204,8 +4222,8 @@ def _mk_c06(name, tier, target, kmin, kmax, first_ops=None):
 _mk_c06("c06_roundtrip_k2_b", "quick", ("/b", "yz"), 1, 2)
 _mk_c06("c06_roundtrip_k2_n", "quick", ("/n", None), 1, 2)
 for _t, _tn in ((("/b", "yz"), "b"), (("/n", None), "n")):
-    for _fo in (("WA0", "WA1", "WA2"), ("AA0", "AA1", "AA2"), ("AL", "WL", "ALS"), ("HW0", "HW1", "HA1"), ("WLE", "ALE")):
-        _mk_c06("c06_roundtrip_k3_%s_%s" % (_tn, _fo[0].lower()), "thorough", _t, 3, 3, _fo)
+    for _fo in ("WA0", "WA1", "WA2", "AA0", "AA1", "AA2", "AL", "WL", "ALS", "HW0", "HW1", "HA1", "WLE", "ALE"):
+        _mk_c06("c06_roundtrip_k3_%s_%s" % (_tn, _fo.lower()), "thorough", _t, 3, 3, (_fo,))
 
 
 # ------------------------------------------------------------------------------------------------
@@ -4542,6 +4560,8 @@ def conc_programs(solver):
         "symlink_l_b": ("symlink", [P("/l"), P("/b")]), "appendline_b": ("append_line", [P("/b"), D("y")]),
         "append_n_x": ("append_all", [P("/n"), D("x")]), "append_n_y": ("append_all", [P("/n"), D("y")]),
         "move_b_ab": ("move_p", [P("/b"), P("/a/b")]), "read_ab": ("read_all", [P("/a/b")]),
+        "copy_b_n": ("copy", [P("/b"), P("/n")]), "copy_a_d": ("copy", [P("/a"), P("/d")]), "allpaths_a": ("all_paths", [P("/a")]), "paths_root": ("paths", [P("/")]),
+        "write_ab_x": ("write_all", [P("/a/b"), D("x")]),
     }
     return ops, data
 
@@ -4660,6 +4680,9 @@ CONC_RUST_OPS = {
     "symlink_l_b": 'v.symlink("/l", "/b").map(|_| String::new())', "appendline_b": 'v.append_line("/b", "Y").map(|_| String::new())',
     "append_n_x": 'v.append_all("/n", "X").map(|_| String::new())', "append_n_y": 'v.append_all("/n", "Y").map(|_| String::new())',
     "move_b_ab": 'v.move_p("/b", "/a/b").map(|_| String::new())', "read_ab": 'v.read_all("/a/b")',
+    "copy_b_n": 'v.copy("/b", "/n").map(|_| String::new())', "copy_a_d": 'v.copy("/a", "/d").map(|_| String::new())',
+    "allpaths_a": 'v.all_paths("/a").map(|x| format!("{:?}", x))', "paths_root": 'v.paths("/").map(|x| format!("{:?}", x))',
+    "write_ab_x": 'v.write_all("/a/b", "X").map(|_| String::new())',
 }
 
 
@@ -4724,33 +4747,37 @@ CONC_QUICK = [
     ("append_new||write_new", [["append_n_x"], ["write_n_y"]]),
     ("move_over_file||read", [["move_b_ab"], ["read_ab"]]),
     ("move_over_file||append", [["move_b_ab"], ["append_b_y"]]),
+    ("copy||append", [["copy_b_n"], ["append_b_y"]]),
+    ("copy_dir||write_inside", [["copy_a_d"], ["write_ab_x"]]),
+    ("all_paths||remove_all", [["allpaths_a"], ["removeall_a"]]),
+    ("paths||mkfile", [["paths_root"], ["mkfile_n"]]),
 ]
 
 
 @job("c04_interleavings", ["C04", "C12"], "quick",
      functions=["Memfs::{append_all,write_all,mkdir_p,mkfile,remove,remove_all,move_p,set_cwd,read_all,symlink} (real MIR) under a thread scheduler"],
-     bounds="13 two-thread programs with one call per thread from the op alphabet (incl. creation races on a file that does not exist yet and a move onto an existing file); every interleaving of the lock-protected critical sections (context switch before each lock acquisition); data bytes symbolic")
+     bounds="17 two-thread programs with one call per thread from the op alphabet (incl. creation races on a file that does not exist yet, a move onto an existing file, copies and listing snapshots); every interleaving of the lock-protected critical sections (context switch before each lock acquisition); data bytes symbolic")
 def c04_quick(ctx, prop):
     return run_concurrent(ctx, prop, CONC_QUICK)
 
 
 CONC_ALPHA = ["append_b_x", "append_b_y", "write_b_x", "write_n_y", "mkdir_de", "mkdir_d", "mkfile_n", "remove_b", "remove_n", "removeall_a",
               "read_b", "exists_n", "isdir_d", "move_b_c", "setcwd_a", "mkfile_rel", "symlink_l_b", "appendline_b", "append_n_x", "append_n_y",
-              "move_b_ab", "read_ab"]
+              "move_b_ab", "read_ab", "copy_b_n", "copy_a_d", "allpaths_a", "paths_root", "write_ab_x"]
 
 
 def _mk_conc_pairs(k, n):
     @job("c04_pairs_%d" % k, ["C04", "C12"], "thorough",
          functions=["Memfs operations (real MIR) under a thread scheduler"],
-         bounds="two-thread programs with one call per thread: chunk %d of %d of all ordered pairs over a 22-operation alphabet; every interleaving of the critical sections" % (k + 1, n))
+         bounds="two-thread programs with one call per thread: chunk %d of %d of all ordered pairs over a 27-operation alphabet; every interleaving of the critical sections" % (k + 1, n))
     def f(ctx, prop):
         pairs = [("%s||%s" % (a, b), [[a], [b]]) for a in CONC_ALPHA for b in CONC_ALPHA]
         return run_concurrent(ctx, prop, pairs[k::n], tag="c04_pairs_%d" % k)
     return f
 
 
-for _k in range(8):
-    _mk_conc_pairs(_k, 8)
+for _k in range(12):
+    _mk_conc_pairs(_k, 12)
 
 
 @job("c04_two_calls", ["C04", "C12"], "thorough",
